@@ -30,6 +30,7 @@ EXPLANATION = (
     "len(raw) <= 2 with the value decoded signed (agreement with the echo check), multi-register carrying raw unchanged, and a "
     "one-byte setting is read-modify-written from one register at setting.offset. (R3) unknown ids never write (C18.R3). Float "
     "rounding of scaled values (int(float(v) * scale)) is a value-level question and is deliberately not decided."
+    " (R4) write_setting hands the looked-up setting and the caller's value to _write_setting exactly once; write_setting('modbus-N', v) sends int(v) to register int(id[7:]) and read_setting('modbus-N') decodes it signed."
 )
 
 
@@ -180,6 +181,30 @@ def r4_known_ids(ctx: Ctx, rep: Report):
         rep.check(bad is None, "C17.R4", "known-id:%s" % fam, fn.loc(), "%s.write_setting(known id, v) awaits _write_setting(<that setting>, v) exactly once (%d paths)" % (fam, nknown),
                   bad="%s.write_setting: for an id found in self._settings the call does not end in exactly one awaited self._write_setting(<that setting>, %s) [path %s]: nothing (or something else) is written" % (
                       fam, vp, bad.describe(8) if bad else ""))
+    # modbus-N write: register = int(<id>[7:]), value = int(<value>), one write
+    for fam in ("ET", "DT", "ES"):
+        fn = prog.cls(fam).methods["write_setting"]
+        idp, vp = fn.params[1], fn.params[2]
+        bad, nmod = None, 0
+        for p in enumerate_paths(prog, fn, no_raise):
+            if not any(ev.kind == "test" and ev.data is True and isinstance(ev.node, ast.Call) and (call_chain(ev.node) or ("",))[-1] == "startswith"
+                       and ev.node.args and isinstance(ev.node.args[0], ast.Constant) and str(ev.node.args[0].value).startswith("modbus") for ev in p.events):
+                continue
+            nmod += 1
+            rp = Replay(prog, fn, p)
+            wr = [(i, ev.node) for i, ev in enumerate(p.events) if ev.kind == "call" and (call_chain(ev.node) or ("",))[-1] == "_write_command" and len(ev.node.args) == 2]
+            ok = len(wr) == 1
+            if ok:
+                i, c = wr[0]
+                sy = rp.sym_at(i)
+                a = sy.lin(c.args[0]).single_term()
+                ok = a is not None and a[0] == "slice" and a[1] == ("var", idp) and a[2] is not None and a[2].is_const() and a[2].const == len("modbus-") and a[3] is None \
+                    and sy.lin(c.args[1]) == Lin.of_term(("var", vp))
+            if not ok and bad is None:
+                bad = p
+        if nmod:
+            rep.check(bad is None, "C17.R4", "modbus-write:%s" % fam, fn.loc(), "%s.write_setting('modbus-N', v) writes int(v) to register N" % fam,
+                      bad="%s.write_setting('modbus-N', v) does not send exactly one _write_command(int(%s[7:]), int(%s)) [path %s]" % (fam, idp, vp, bad.describe(6) if bad else ""))
     # modbus-N: the read side decodes the register as a signed 16-bit number (the write side sends int(value) in two's complement, C03.R2)
     for fam in ("ET", "DT", "ES"):
         for mname in ("read_setting",):
